@@ -1,0 +1,35 @@
+//go:build verif
+
+// Machine-checked contracts for package utils (comment-only; read by /verif/bin/bornovc).
+package utils
+
+//@ func RuntimeError [C06,C19,C02]
+//@ ensures [flag] HadRuntimeError
+//@ ensures [noparse] HadError == old(HadError)
+//@ ensures [one] stderrN == old(stderrN)+1
+//@ ensures [diag] stderr[old(stderrN)] == fmt.sprintf2("%s\n[line %d]\n", mkStr(message), mkInt(token.Line))
+//@ ensures [stdout] stdoutN == old(stdoutN)
+
+//@ func report [C08,C19]
+//@ ensures [flag] HadError
+//@ ensures [nort] HadRuntimeError == old(HadRuntimeError)
+//@ ensures [one] stderrN == old(stderrN)+1
+//@ ensures [diag] stderr[old(stderrN)] == fmt.sprintf3("[line %d] Error%s: %s\n", mkInt(line), mkStr(where), mkStr(message))
+
+//@ func GlobalError [C08,C19]
+//@ ensures [flag] HadError
+//@ ensures [nort] HadRuntimeError == old(HadRuntimeError)
+//@ ensures [one] stderrN == old(stderrN)+1
+//@ ensures [line] reportLine(stderr[old(stderrN)]) == line
+
+//@ func GlobalErrorToken [C08,C19]
+//@ ensures [flag] HadError
+//@ ensures [nort] HadRuntimeError == old(HadRuntimeError)
+//@ ensures [one] stderrN == old(stderrN)+1
+//@ ensures [line] reportLine(stderr[old(stderrN)]) == t.Line
+
+//@ func ConvertBanglaDigitsToASCII [C10,C02]
+//@ loop 1:
+//@   invariant [range] 0 <= pos && pos <= len(input)
+//@   invariant [fold] sbText(result) == trFold(input, pos)
+//@ ensures [tr] result == trStr(input)
